@@ -243,6 +243,22 @@ class Native:
         return f"Native<{self.name}>"
 
 
+class _Draining:
+    """Iterates a one-shot iterator value lazily: each step takes the next element off it (a loop left early leaves the
+    rest for the next consumer, a loop run to the end leaves it empty)."""
+
+    def __init__(self, gen: "Lst"):
+        self.gen = gen
+
+    def __iter__(self):
+        return self
+
+    def __next__(self):
+        if not self.gen.items:
+            raise StopIteration
+        return self.gen.items.pop(0)
+
+
 class FinExpr:
     """A value computed from a finite-set symbol by concrete operations: fn(member) for the eventual member."""
     __slots__ = ("cid", "fn", "desc")
@@ -1530,7 +1546,7 @@ class Interp:
             start = args[1] if len(args) > 1 else kwargs.get("start", 0)
             if not isinstance(start, int):
                 raise Unsupported(f"enumerate with abstract start at {self.site}")
-            return Lst([Tup((i, x)) for i, x in enumerate(self.iter_items(args[0]), start)])
+            return self._one_shot([Tup((i, x)) for i, x in enumerate(self.iter_items(args[0]), start)])
         if name == "getattr":
             obj, attr = args[0], args[1]
             if isinstance(attr, str):
@@ -1574,16 +1590,16 @@ class Interp:
             seqs = [self.iter_items(a) for a in args]
             if kwargs.get("strict") and len({len(q) for q in seqs}) > 1:
                 raise AbsRaise("ValueError", self.site, "zip() arguments have different lengths")
-            return Lst([Tup(t) for t in zip(*seqs)])
+            return self._one_shot([Tup(t) for t in zip(*seqs)])
         if name == "reversed":
-            return Lst(list(reversed(self.iter_items(args[0]))))
+            return self._one_shot(list(reversed(self.iter_items(args[0]))))
         if name == "map":
             seqs = [self.iter_items(a) for a in args[1:]]
-            return Lst([self.call(args[0], list(t), {}) for t in zip(*seqs)])
+            return self._one_shot([self.call(args[0], list(t), {}) for t in zip(*seqs)])
         if name == "filter":
             f = args[0]
-            return Lst([x for x in self.iter_items(args[1])
-                        if self.truth(x if f is None else self.call(f, [x], {}), "filter")])
+            return self._one_shot([x for x in self.iter_items(args[1])
+                                   if self.truth(x if f is None else self.call(f, [x], {}), "filter")])
         if name == "sum":
             total: Any = args[1] if len(args) > 1 else kwargs.get("start", 0)
             for x in self.iter_items(args[0]):
@@ -1631,6 +1647,12 @@ class Interp:
         if name == "id":
             return Opaque("id()")
         raise Unsupported(f"builtin {name}({args!r}) at {self.site}")
+
+    @staticmethod
+    def _one_shot(items: list) -> "Lst":
+        g = Lst(items)
+        g.is_gen = True
+        return g
 
     def _concrete_key(self, x, keyfn):
         k = x if keyfn is None else self.call(keyfn, [x], {})
@@ -2236,7 +2258,8 @@ class Interp:
             env.vars[st.name] = Fn(FuncInfo(env.module, st, None), env)
         elif isinstance(st, ast.For):
             it = self.eval(st.iter, env)
-            items = self.iter_items(it)
+            one_shot = isinstance(it, Lst) and getattr(it, "is_gen", False)
+            items = _Draining(it) if one_shot else self.iter_items(it)
             broke = False
             for x in items:
                 self.assign(st.target, x, env)
@@ -2332,7 +2355,12 @@ class Interp:
             raise Unsupported(f"statement {type(st).__name__} at {self.site}")
 
     def iter_items(self, it) -> list:
-        """The elements an iteration over `it` yields, as a Python list (snapshot, like iterating a copy)."""
+        """The elements an iteration over `it` yields, as a Python list (snapshot, like iterating a copy).  A one-shot
+        iterator (generator expression, iter(), reversed(), map(), filter(), zip(), enumerate()) is exhausted by it."""
+        if isinstance(it, Lst) and getattr(it, "is_gen", False):
+            out = list(it.items)
+            del it.items[:]
+            return out
         if isinstance(it, (Lst, Tup)):
             return list(it.items)
         if isinstance(it, str):
@@ -3227,6 +3255,8 @@ def _call_builtin_method(self: Interp, info, args, kwargs):
                         break
                     flat.pop(0)
                     continue
+                if isinstance(head, tuple) and head[0] == "ident" and not any(ch.isalpha() for ch in chars):
+                    break   # a variable name consists of letters: nothing of it is stripped
                 raise Unsupported(f"lstrip on a partly abstract string at {self.site}")
             return Render(tuple(flat)) if flat else ""
         if isinstance(obj, Render) and n.startswith("render:"):
@@ -3249,6 +3279,8 @@ def _call_builtin_method(self: Interp, info, args, kwargs):
                 if isinstance(nxt, tuple) and nxt[0] == "num" and arg[len(lead):] == "-":
                     # the text of a number starts with '-' exactly when the number is negative
                     return self.sign_query(nxt[1], frozenset(["neg"]), f"{A.term_str(nxt[1])}<0")
+                if isinstance(nxt, tuple) and nxt[0] == "ident" and not arg[len(lead):][:1].isalpha():
+                    return False   # a variable name starts with a letter
                 raise Unsupported(f"startswith on a partly abstract string at {self.site}")
             tail = ""
             for part in reversed(flat):
